@@ -4,7 +4,7 @@ C30 — the textx CLI reports outcomes and passes generator arguments faithfully
 symx runs the real click callback of `textx generate`
 (textx/cli/generate.py) with a stub context, a harness language and generator
 registered in the real registry, and an argument vector
-    [model file, '--' + NAME, (VALUE | '--' + NAME2)?]
+    [model file, '--' + NAME, (VALUE | '--' + NAME2)?]        (and [model file] alone)
 whose NAME / VALUE characters are symbolic (str-compatible proxies).  The
 decisions of the argument loop (`startswith('--')`, bare flag or value,
 `strip`, dash normalisation) are z3-decided forks; names are pinned by forking
@@ -144,7 +144,7 @@ def explore_case(item):
     def path(c):
         received = setup_registry(declared)
         a1 = SymText(SymStr.of('--') + name)
-        args = [model_file, a1]
+        args = [model_file, a1] if vkind != 'noargs' else [model_file]      # noargs: no custom argument at all
         if val is not None:
             args.append(SymText(val))
         if name2 is not None:
@@ -163,7 +163,7 @@ def explore_case(item):
         finally:
             logging.disable(logging.NOTSET)
         # pin everything that is still symbolic, then compare concretely
-        cargs = [SymText(SymStr.of('--') + name).concretize_fork()]
+        cargs = [SymText(SymStr.of('--') + name).concretize_fork()] if vkind != 'noargs' else []
         if val is not None:
             cargs.append(SymText(val).concretize_fork())
         if name2 is not None:
@@ -291,6 +291,8 @@ def main():
             items.append((nlen, 'switch', 1, declared, 20000))
             for vlen in range(1, maxv + 1):
                 items.append((nlen, 'value', vlen, declared, 20000))
+    for declared in decls + [[('a', True), ('_', False)], [('a', False), ('a_a', True)]]:
+        items.append((1, 'noargs', 0, declared, 20000))
     results = pmap(explore_case, items)
     chk.cov['functions_encoded'] = src_hash(G.generate)
     chk.cov['bounds'] = {'name_chars': maxn, 'value_chars': maxv, 'name_alphabet': 'a - _',
